@@ -1,5 +1,6 @@
-// Harnesses for lsp4spl/src/features/signature_help.rs (property C14, active-parameter clause).
-// Appended as `#[cfg(kani)] mod __verif { use super::*; ... }`; get_active_param is the REAL private fn.
+// Harnesses for lsp4spl/src/features/signature_help.rs (property C14: active-parameter clause and
+// choice of the enclosing call).  Appended as `#[cfg(kani)] mod __verif { use super::*; ... }`;
+// get_active_param, find_call_stmt, find_call_stmt_in_stmt are the REAL private fns.
 //
 // Statement clause: "marks as active the parameter whose index is the number of commas between the
 // opening parenthesis and the cursor".  The token slice handed to get_active_param is the call
@@ -102,7 +103,9 @@ fn c14_active_t() {
 
 // ---------------------------------------------------------------------------
 // Choice of the enclosing call under nesting: the REAL find_call_stmt / find_call_stmt_in_stmt on a
-// procedure whose body statement is  if (..) call | while (..) call | if (..) ; else call | { call }
+// block whose statement is  if (..) call | while (..) call | if (..) ; else call   (three harnesses
+// through find_call_stmt_in_stmt) and on a procedure whose body statement is a call (one harness
+// through find_call_stmt)
 // with symbolic Reference offsets and call lengths (a three-call tree did not finish in 20 min); tokens are adjacent one-byte tokens, so a call
 // whose Reference chain sums to token index t and that is n tokens long covers text [t, t+n).
 // Asserted: if the cursor lies inside exactly one call, that call is returned together with the
